@@ -2,7 +2,7 @@ package main
 
 func init() {
 	checks["C09"] = func(tier string) {
-		sessionCheck("C09", tier, "MC_Auth", "MC_Auth.cfg", "Dump_Auth.cfg", "Server half of C09: TLS x AllowInsecureAuth x backend families.")
+		sessionCheckWith("C09", tier, "MC_Auth", "MC_Auth.cfg", "Dump_Auth.cfg", "Server half: TLS x AllowInsecureAuth x backend families. Client half: ClientAuth.tla enumerates every exchange of up to 3 challenges (initial response absent/empty/octets, challenge and response empty/octets, mechanism error at any step, final reply 235/535/454); the real Client.Auth is driven with a scripted mechanism against a scripted fake server (lines written, result, challenges shown, values received compared with the dumped expectation) and against the real server with a scripted sasl.Server (octets on both sides).", clientAuthFamily)
 	}
 	checks["C10"] = func(tier string) {
 		sessionCheck("C10", tier, "MC_Auth", "MC_Auth.cfg", "Dump_Auth.cfg", "Server half of C10: every pre-STARTTLS history class of the bounded model, with and without injected plaintext.")
